@@ -109,6 +109,7 @@ class Variants:
             "vr_d2s_ext_guard": probes.get("d2s_ext_nondict", "AttributeError") != "AttributeError",
             "vr_toplevel_needs_slot": not probes.get("toplevel_without_slot", True),
             "vr_ext_nonempty": not probes.get("empty_extensions", True),
+            "vr_marking_flag": not probes.get("marking_flag_ignored", True),
         }
 
     def coq_variant(self):
